@@ -2,9 +2,11 @@
   C07 — types shared by the hand model (`CpModel.ParseSites`) and the table regenerated from the live
   code on every run (`CpModel.Gen.C07Tables`).  Core Lean only.
 
-  `Exc`  : the universe of Python exception classes the catch map is measured over, plus the pseudo
+  `Exc`  : the universe of Python exception classes the catch map is measured over (`MaxSizeExceeded` is
+           cheroot's, recognised by CherryPy by its class name), plus the pseudo
            class `HTTP400` ("the callee raises `cherrypy.HTTPError(400)` itself").
   `Site` : the places where one parser (stdlib or CherryPy's own) is applied to client bytes.
+  `RespCls` : classes of response header values for the header-encoding table.
 -/
 namespace CpModel.Parse
 
@@ -12,7 +14,7 @@ inductive Exc
   | ValueError | UnicodeError | UnicodeDecodeError | UnicodeEncodeError | LookupError | KeyError
   | IndexError | EOFError | TypeError | AttributeError | NameError | UnboundLocalError | RuntimeError
   | RecursionError | BinasciiError | MessageError | HeaderParseError | CookieError | OverflowError
-  | JSONDecodeError | OSError | AssertionError | HTTP400
+  | JSONDecodeError | OSError | AssertionError | MaxSizeExceeded | HTTP400
   deriving DecidableEq, Repr, Inhabited
 
 inductive Site
@@ -50,17 +52,32 @@ inductive Site
   | basicB64
   /-- `parse_keqv_list(parse_http_list(..))` in `HttpDigestAuthorization.__init__` -/
   | digestKeqv
+  /-- `chunk.encode(charset)` with the client's `Accept-Charset` name in `ResponseEncoder.encode_string` -/
+  | encodeCharset
+  /-- `urllib.parse.urlparse(request.base)` (the Host-derived base URL) in `cptools.proxy` -/
+  | proxyNetloc
+  /-- `urllib.parse.urljoin(cherrypy.url(), url)` (Host-derived base URL) in `HTTPRedirect.__init__` -/
+  | redirectNetloc
+  /-- `self.fp.read / readline / read_trailer_lines` of the server's reader object (`wsgi.input`) in `SizedReader` -/
+  | rfileRead
   deriving DecidableEq, Repr, Inhabited
+
+/-- classes of `str` values a response header can carry (what `HeaderMap.encode` distinguishes, and more) -/
+inductive RespCls
+  | empty | ascii | latin1 | wide | astral | control | mixed
+  deriving DecidableEq, Repr, Inhabited
+
+def allRespCls : List RespCls := [.empty, .ascii, .latin1, .wide, .astral, .control, .mixed]
 
 def allExcs : List Exc :=
   [.ValueError, .UnicodeError, .UnicodeDecodeError, .UnicodeEncodeError, .LookupError, .KeyError,
    .IndexError, .EOFError, .TypeError, .AttributeError, .NameError, .UnboundLocalError, .RuntimeError,
    .RecursionError, .BinasciiError, .MessageError, .HeaderParseError, .CookieError, .OverflowError,
-   .JSONDecodeError, .OSError, .AssertionError, .HTTP400]
+   .JSONDecodeError, .OSError, .AssertionError, .MaxSizeExceeded, .HTTP400]
 
 def allSites : List Site :=
   [.decodeHeader, .decodeTextCharset, .cookieLoad, .qsUnquote, .imageMapInt, .getRanges, .qvalueAccept,
    .qvalueGzip, .contentLengthInt, .urlencDecode, .partDecode, .partHeaders, .partBody, .filenameStar,
-   .jsonDecode, .basicB64, .digestKeqv]
+   .jsonDecode, .basicB64, .digestKeqv, .encodeCharset, .proxyNetloc, .redirectNetloc, .rfileRead]
 
 end CpModel.Parse
